@@ -95,7 +95,10 @@ def configs(tier, seed):
         for Mt in (4, 64):
             for start in (0, 1):
                 for lo, hi in ((0, 250), (250, 500), (500, 10 ** 9)):       # (first deviating point of the schedule: a shard each)
-                    out.append(('threads', pi, Mt, (start, lo, hi), 2 if (tier == 'thorough' and pi == 0 and Mt == 4) else 1))
+                    out.append(('threads', pi, Mt, (start, lo, hi), 1))
+                if tier == 'thorough':
+                    for lo, hi in ((0, 20), (20, 40), (40, 10 ** 9)):
+                        out.append(('threads', pi, Mt, (start, lo, hi), 2))
     for first in range(len(SEQ_KINDS)):
         out.append(('appseq', first, 4, False, None))
         out.append(('appseq', first, 64, False, None))
@@ -529,12 +532,12 @@ HERE = __import__('os').path.abspath(__file__)
 THREAD_BODIES = [(b'AAAAAAAAAA', b'bbbbbbbbbb'), (b'AAAAAAAAAA', b'bbb'), (b'0123456789', b'')]
 
 
-def run_threads(om, M, pair, prefix):
+def run_threads(om, M, pair, prefix, gran='line'):
     from vf.sched import Scheduler
     app = seq_app(om, M)
     progs = [(lambda d=d: wsgi.call(app, wsgi.environ('POST', '/read', input=io.BytesIO(d + b'NEXT'), clen=len(d)))) for d in pair]
     sp = _src_prefix()
-    return Scheduler(progs, prefix, lambda fn: fn.startswith(sp) or fn == HERE).run()
+    return Scheduler(progs, prefix, lambda fn: fn.startswith(sp) or fn == HERE, granularity=gran).run()
 
 
 def judge_threads(pair, x):
@@ -554,7 +557,8 @@ def work_threads(res, pi, M, start, bound):
     c = res['counters']
     pair = THREAD_BODIES[pi]
     start, lo, hi = start
-    for prefix, x in explore(lambda p: run_threads(sut.load(fresh=True), M, pair, p), bound, base=(start,), first_points=(lo, hi)):
+    gran = 'call' if bound >= 2 else 'line'        # two preemptions: scheduling points at function entries
+    for prefix, x in explore(lambda p: run_threads(sut.load(fresh=True), M, pair, p, gran), bound, base=(start,), first_points=(lo, hi)):
         res['states'] += 1
         res['transitions'] += len(x.points)
         res['execs'] += 1
@@ -564,7 +568,7 @@ def work_threads(res, pi, M, start, bound):
         v = judge_threads(pair, x)
         res['outcomes'].add('threads ' + ('ok' if v is None else v[0]))
         if v is not None:
-            core.add_violation(res, {'kind': 'threads', 'pair': pi, 'M': M, 'choices': list(x.choices)},
+            core.add_violation(res, {'kind': 'threads', 'pair': pi, 'M': M, 'choices': list(x.choices), 'gran': gran},
                                f'requests with the bodies {pair[0]!r} and {pair[1]!r} on two threads of one application (max_memfile_size={M}), {x.switches} switches: {v[1]}',
                                sig=v[0])
     sut.load(fresh=True)
@@ -627,7 +631,7 @@ def replay(case):
     om = sut.load()
     if case['kind'] == 'threads':
         pair = THREAD_BODIES[case['pair']]
-        x = run_threads(sut.load(fresh=True), case['M'], pair, case['choices'])
+        x = run_threads(sut.load(fresh=True), case['M'], pair, case['choices'], case.get('gran', 'line'))
         v = judge_threads(pair, x)
         sut.load(fresh=True)
         return None if v is None else (f'requests with the bodies {pair[0]!r} and {pair[1]!r} on two threads of one application (max_memfile_size={case["M"]}) under the '
